@@ -13,7 +13,7 @@ from .contracts_rt import Contract, RecSpec
 from . import solve
 
 VERIF = os.path.dirname(os.path.dirname(os.path.abspath(__file__)))
-CONTRACT_MODULES = ["schema", "writer"]
+CONTRACT_MODULES = ["schema", "writer", "enclosing"]
 
 
 def load_contracts(modules=None):
@@ -76,6 +76,7 @@ def make_engine(modules=None, repo=None):
         eng.preds[name] = (node, None)
     for name, (node, args, ret) in reg["recs"].items():
         eng.rec_funcs[name] = RecSpec(name, node, args, ret)
+    eng.lemmas = dict(reg["lemmas"])
     eng.const_dump = {}
     eng._const_dump_loader = lambda: dump_constants(repo)
     return eng
@@ -98,6 +99,13 @@ def run(functions=None, modules=None, timeout_ms=10000, verbose=True):
             summary[q] = eng.verify_function(fi, c)
         except EngineError as e:
             eng.problems.append((q, f"EngineError: {e}"))
+    for name, d in eng.lemmas.items():
+        if functions and ("lemma:" + name) not in functions:
+            continue
+        try:
+            eng.verify_lemma(name, d)
+        except EngineError as e:
+            eng.problems.append(("lemma:" + name, f"EngineError: {e}"))
     t1 = time.time()
     verdicts = solve.discharge(eng.obligations, timeout_ms=timeout_ms)
     t2 = time.time()
